@@ -296,6 +296,7 @@ class SlotFlow:
 
     # -- one function ---------------------------------------------------
     def analyse(self, fn, entry_state):
+        fn = getattr(fn, 'raw', fn)     # the dataflow has its own callee summaries: it runs on the function as written, not on an inlined view
         cfg = fn.cfg
         evs = self.events[fn.key()]
         state_in = {cfg.entry: entry_state}
